@@ -175,7 +175,7 @@ fn gen(tier: Tier) -> Vec<Case> {
         push(format!("-{} {}", kw.word, firsts.join(" ")), kw.word, "double-dash-keyword");
     }
     // long members of the argument languages
-    for n in [16usize, 17, 32, 33, 64, 65, 128, 129, 256, 257, 1000] {
+    for n in (2usize..=130).chain([255, 256, 257, 1000]) {
         push(format!("-uid {}5", "0".repeat(n)), "-uid", "member");
         push(format!("-uid {}4294967296", "0".repeat(n)), "-uid", "corruption");
         push(format!("-size +{}12k", "0".repeat(n)), "-size", "member");
